@@ -576,7 +576,104 @@ func fanoutRule(c *core.Ctx) {
 	_ = types.Typ
 }
 
-// globalWrites lists the writes of a function to package-level variables of the module (stores, map updates, element stores).
+// mutatesParams: for every module function, which parameters' pointees it may write (directly or through callees).
+var mutatesCache = map[*ssa.Program]map[*ssa.Function][]bool{}
+
+func mutatesParams(fn *ssa.Function) []bool {
+	prog := fn.Prog
+	m := mutatesCache[prog]
+	if m == nil {
+		m = map[*ssa.Function][]bool{}
+		mutatesCache[prog] = m
+		var fns []*ssa.Function
+		for _, pkg := range prog.AllPackages() {
+			if !load.InModule(pkg.Pkg) {
+				continue
+			}
+			for _, mem := range pkg.Members {
+				switch x := mem.(type) {
+				case *ssa.Function:
+					fns = append(fns, x)
+					fns = append(fns, x.AnonFuncs...)
+				case *ssa.Type:
+					for _, t := range []types.Type{x.Type(), types.NewPointer(x.Type())} {
+						ms := prog.MethodSets.MethodSet(t)
+						for i := 0; i < ms.Len(); i++ {
+							if f := prog.MethodValue(ms.At(i)); f != nil {
+								fns = append(fns, f)
+							}
+						}
+					}
+				}
+			}
+		}
+		for _, f := range fns {
+			m[f] = make([]bool, len(f.Params))
+		}
+		rootParam := func(f *ssa.Function, v ssa.Value) int {
+			for i := 0; i < 12; i++ {
+				switch x := v.(type) {
+				case *ssa.Parameter:
+					for k, p := range f.Params {
+						if p == x {
+							return k
+						}
+					}
+					return -1
+				case *ssa.FieldAddr:
+					v = x.X
+				case *ssa.IndexAddr:
+					v = x.X
+				case *ssa.UnOp:
+					v = x.X
+				default:
+					return -1
+				}
+			}
+			return -1
+		}
+		for round := 0; round < 6; round++ {
+			changed := false
+			for _, f := range fns {
+				for _, b := range f.Blocks {
+					for _, ins := range b.Instrs {
+						mark := func(v ssa.Value) {
+							if k := rootParam(f, v); k >= 0 && !m[f][k] {
+								m[f][k] = true
+								changed = true
+							}
+						}
+						switch x := ins.(type) {
+						case *ssa.Store:
+							if _, isAlloc := x.Addr.(*ssa.Alloc); !isAlloc {
+								mark(x.Addr)
+							}
+						case *ssa.MapUpdate:
+							mark(x.Map)
+						case ssa.CallInstruction:
+							cal := x.Common().StaticCallee()
+							if cal == nil || m[cal] == nil {
+								continue
+							}
+							for k, a := range x.Common().Args {
+								if k < len(m[cal]) && m[cal][k] {
+									mark(a)
+								}
+							}
+						}
+					}
+				}
+			}
+			if !changed {
+				break
+			}
+		}
+	}
+	return m[fn]
+}
+
+// globalWrites lists the writes of a function to package-level variables of the module (stores, map updates, element stores,
+// and calls that hand a package-level object to a callee that writes through that parameter).
 func globalWrites(fn *ssa.Function) []string {
 	var out []string
 	rootGlobal := func(v ssa.Value) *ssa.Global {
@@ -608,6 +705,18 @@ func globalWrites(fn *ssa.Function) []string {
 				g = rootGlobal(x.Addr)
 			case *ssa.MapUpdate:
 				g = rootGlobal(x.Map)
+			case ssa.CallInstruction:
+				if cal := x.Common().StaticCallee(); cal != nil {
+					if mp := mutatesParams(cal); mp != nil {
+						for k, a := range x.Common().Args {
+							if k < len(mp) && mp[k] {
+								if gg := rootGlobal(a); gg != nil && !strings.Contains(gg.Type().String(), "Pool") {
+									g = gg
+								}
+							}
+						}
+					}
+				}
 			}
 			if g != nil && g.Pkg != nil && load.InModule(g.Pkg.Pkg) && fn.Name() != "init" && !strings.HasPrefix(fn.Name(), "init#") {
 				out = append(out, fmt.Sprintf("%s writes %s.%s", funcKey(fn), load.Rel(g.Pkg.Pkg.Path()), g.Name()))
